@@ -38,7 +38,7 @@ func v1app(n *consensus.Network, h uint64) bool { return h < n.HardforkV2.Requir
 func v2app(n *consensus.Network, h uint64) bool { return h >= n.HardforkV2.AllowHeight }
 
 func run(c *vf.Ctx) {
-	c.Set("rule", "explicit-state DFS over the union alphabet; at every distinct state, for one canonical live element of every kind (v1-address SC incl. its use as the miner fee of a storage proof transaction, v2-address SC, zero-signature SC and SF, in-block ephemeral output, SF, SF at the old developer address incl. the dev-address override, v1 contract, v2 contract) every ordered pair (first use, second use) of applicable uses x every placement {same transaction, later transaction of the same block, later transaction of the same block after an in-block revision of the contract, next block with stale proof, next block with proof maintained through the update, next block presenting the contract in its revised form after a block [revision, first use], after a reorg that re-applies the first use}; oracle: attack block rejected, control blocks (each use alone) accepted; a case is distinct per (network, height, element kind, first use, second use, placement)")
+	c.Set("rule", "explicit-state DFS over the union alphabet; at every distinct state, for one canonical live element of every kind (v1-address SC incl. its use as the miner fee of a storage proof transaction, v2-address SC, zero-signature SC and SF, in-block ephemeral output, SF, SF at the old developer address incl. the dev-address override, v1 contract, v2 contract) every ordered pair (first use, second use) of applicable uses x every placement {same transaction, later transaction of the same block, later transaction of the same block after an in-block revision of the contract, next block with stale proof, next block with proof maintained through the update, next block presenting the contract in its revised form after a block [revision, first use], after a reorg that re-applies the first use}; plus, for every live v1 contract, its resolution (storage proof / natural expiration) followed by a next block whose SUPPLEMENT lists it as expiring again (pre-resolution proof and proof maintained through the resolving block), and the contract listed twice in the supplement of its expiration block; oracle: attack block rejected, control blocks (each use alone) accepted; a case is distinct per (network, height, element kind, first use, second use, placement)")
 	nets := []string{"v1-eras", "mixed", "v2-only"}
 	if !c.Quick() {
 		nets = append(nets, "v2-eph5") // (a fifth network, v1-mid, did not fit the 25-minute budget with the present attack menu: measured 1320 s with it)
@@ -53,6 +53,7 @@ func run(c *vf.Ctx) {
 			H:   vf.Pick[uint64](c, 8, 8), D: vf.Pick(c, 2, 2), K: vf.Pick(c, 1, 2), R: vf.Pick(c, 1, 1)}
 		if n == "v2-eph5" {
 			m.K = 1 // the extra network of the thorough tier: single-action blocks
+			m.H = 7
 		}
 		if sp.Name == "mixed" {
 			m.SkipStart = 3
@@ -63,7 +64,7 @@ func run(c *vf.Ctx) {
 		x.Run()
 		x.Report(n + "/")
 	}
-	c.RequireFeature("attack_rejected", "control_accepted", "attack:same-block", "attack:same-block-after-revision", "attack:same-tx", "attack:next-block-stale", "attack:next-block-updated", "attack:next-block-ephemeral", "attack:next-block-revised-form", "attack:same-block-alias", "attack:reorg",
+	c.RequireFeature("attack_rejected", "control_accepted", "attack:same-block", "attack:same-block-after-revision", "attack:same-tx", "attack:next-block-stale", "attack:next-block-updated", "attack:next-block-ephemeral", "attack:next-block-revised-form", "attack:same-block-alias", "attack:reorg", "attack:next-block-stale-supplement", "attack:next-block-updated-supplement", "attack:expiring-listed-twice",
 		"kind:sc-v1addr", "kind:sc-v2addr", "kind:sc-nosig", "kind:sf-nosig", "kind:sf", "kind:sf-devaddr", "kind:fc", "kind:v2fc", "kind:ephemeral")
 	c.Assume("every attack block is built by the harness' own builder: correct parent, timestamp, commitment/Merkle root, miner payout and nonce; the control experiment (same block without the second use) must be accepted, so an attack cannot be rejected merely for being badly sealed")
 }
